@@ -22,6 +22,11 @@ def rowOK (r : AccessRow) : Bool :=
     else if r.field == "lastError" || r.field == "latency" then r.locks.contains "mu:channel"
     else if r.field == "gorumsStream" || r.field == "streamCtx" || r.field == "cancelStream" || r.field == "gorumsClient" then
       r.locks.contains "streamMut:W" || (!r.write && r.locks.contains "streamMut:R")
+    -- set once in newChannel, before the goroutines exist, and only read afterwards
+    else if r.field == "backoffCfg" || r.field == "parentCtx" || r.field == "node" || r.field == "sendQ" then
+      !r.write || r.fn == "newChannel"
+    -- a *rand.Rand is not safe for concurrent use: not used at all once the goroutines exist
+    else if r.field == "rand" then r.fn == "newChannel"
     else false
   else false
 
